@@ -12,6 +12,7 @@ package main
 // different text.
 
 import (
+	"bufio"
 	"bytes"
 	"encoding/base64"
 	"fmt"
@@ -150,6 +151,12 @@ func runC11(r *rt.Run, tier string) {
 		text = append([]byte("-Dash-Field: - dashed value\n\n"), text...)
 		model = append([]mPara{{Fields: []mField{{Name: "-Dash-Field", Lines: []string{"- dashed value"}}}}}, model...)
 		r.Probe("dash-escaped-line")
+	}
+	if t.Bool(1, 12, "c11.blanktext") {
+		// a signed text without any paragraph: still has to be verified
+		text = []byte([]string{"", "\n", "\n\n"}[t.Draw(3, "c11.blankkind")])
+		model = nil
+		r.Probe("signed-text-without-paragraphs")
 	}
 	signerIdx := t.Weighted([]int{3, 3, 1}, "c11.signer")
 	signer := pgpKeys[signerIdx]
@@ -419,7 +426,8 @@ func runC11(r *rt.Run, tier string) {
 		}
 	}
 	// 3. must-fail classes
-	if mustFail && success && len(res.paras) > 0 {
+	armorIntact := bytes.HasPrefix(data, []byte("-----BEGIN PGP SIGNED MESSAGE-----"))
+	if mustFail && success && (len(res.paras) > 0 || (armorIntact && len(model) == 0)) {
 		r.Violate("C11/accepted-invalid-signature", key, "reading succeeded (%d paragraphs, signer reported=%v) for fault %s", len(res.paras), res.signer != nil, fault)
 	}
 	if mustFail && res.signer != nil {
@@ -492,6 +500,30 @@ func runC11(r *rt.Run, tier string) {
 			r.Violate("C11/unsigned-text-reached-caller", "two-readers/verified-reader-after-EOF", "a verified reader (Signer() non-nil) that had reached EOF returned %s after a second reader was created", leaked)
 		}
 		r.Probe("two-readers-alive")
+		// the caller hands in its own bufio.Reader and re-uses it for the next
+		// file once the verified reader exists (the whole input was consumed by
+		// then): the verified reader must keep serving the signed text
+		var viaCaller []control.Paragraph
+		var vcErr error
+		task = r.Solo("callers-bufio", func() {
+			br := bufio.NewReaderSize(simio.NewPlainReader(r, "caller", data), 4096+t.Draw(2, "c11.brsize")*4096)
+			pr, err := control.NewParagraphReader(br, keyring)
+			if err != nil {
+				vcErr = err
+				return
+			}
+			br.Reset(simio.NewPlainReader(r, "next-file", []byte(c11Foreign)))
+			viaCaller, vcErr = pr.All()
+		})
+		if taskTrouble(r, "C11", key+"/callers-bufio", task) {
+			return
+		}
+		if m := mentionsForeign(viaCaller); m != "" {
+			r.Violate("C11/unsigned-text-reached-caller", "callers-bufio-reused", "the caller re-used its own bufio.Reader for the next file after the verified reader was built; the verified reader (Signer() non-nil) then returned %s", m)
+		} else if vcErr == nil && len(viaCaller) != len(model) {
+			r.Violate("C11/signed-paragraphs-differ", "callers-bufio-reused", "verified reader returned %d paragraphs, the signed text has %d, after the caller re-used its bufio.Reader", len(viaCaller), len(model))
+		}
+		r.Probe("callers-bufio-reused")
 	}
 
 	// 4. unsigned input never has a signer (the plain text of the same document)
@@ -516,5 +548,5 @@ func init() {
 		},
 		Assumptions: []string{"x/crypto/openpgp both signs and verifies: a bug common to both directions is invisible", "must-fail is only demanded where the canonical signed text or the decoded signature provably changed (non-blank text byte to another non-blank byte; base64 character to another base64 character; truncation before the checksum line; replaced signature; keyring without signer); all other faults are checked for soundness only", "fixture keys; signing with a fixed time is byte-deterministic"},
 	})
-	propProbes["C11"] = []string{"two-readers-alive", "reread-with-other-keyrings", "empty-keyring-as-nil-slice", "verification-succeeded", "dash-escaped-line", "substitution-in-signed-text", "substitution-in-signature-armor", "truncation-inside-armor", "nil-keyring", "unsigned-input"}
+	propProbes["C11"] = []string{"callers-bufio-reused", "signed-text-without-paragraphs", "two-readers-alive", "reread-with-other-keyrings", "empty-keyring-as-nil-slice", "verification-succeeded", "dash-escaped-line", "substitution-in-signed-text", "substitution-in-signature-armor", "truncation-inside-armor", "nil-keyring", "unsigned-input"}
 }
